@@ -173,7 +173,22 @@ def cumulative_case(ctx, rng, idx):
     try:
         if order == 'route_regimen':
             m.set_administration(comp, amount_var=var, direct=direct)
-            m.set_dosing_regimen(**kw)
+            if kind not in ('protocol', 'protocol_overlap') and \
+                    rng.random() < 0.4:
+                # the regimen reaches the model through a reduced wrapper
+                # (as after PredictiveModel.fix_parameters), by position or
+                # by keyword
+                m = chi.ReducedMechanisticModel(m)
+                feats['through_reduced_wrapper'] = True
+                if rng.random() < 0.5:
+                    m.set_dosing_regimen(
+                        kw['dose'], kw.get('start', 0),
+                        kw.get('duration', 0.01), kw.get('period'),
+                        kw.get('num'))
+                else:
+                    m.set_dosing_regimen(**kw)
+            else:
+                m.set_dosing_regimen(**kw)
         else:
             if am is not None and len(am.comps) > 1:
                 j0 = int(rng.integers(len(am.comps)))
